@@ -155,30 +155,24 @@ theorem decodeChunk_bounded (H : Bytes → Bytes) (decomp : Nat → Bytes → Na
     (h : decodeChunk H decomp compr d stored = some chunk) :
     chunk.length ≤ max d.sourceSize stored.length := by
   unfold decodeChunk at h
-  dsimp only at h
-  split at h
-  · simp only [Option.bind_some] at h
-    split at h
-    · cases h; omega
-    · cases h
+  simp only [Option.bind_eq_some_iff] at h
+  obtain ⟨c, hraw, hc⟩ := h
+  -- the chunk handed on is the raw one (whatever further tests it passed)
+  have hcc : c = chunk := by
+    split at hc
+    · cases hc
+    · split at hc
+      · cases hc; rfl
+      · cases hc
+  subst hcc
+  split at hraw
+  · cases hraw; omega
   · cases compr with
-    | none =>
-      simp only [Option.bind_some] at h
-      split at h
-      · cases h; omega
-      · cases h
-    | some c =>
-      obtain ⟨algo, lvl⟩ := c
-      dsimp only at h
-      cases hd : decomp algo stored d.sourceSize with
-      | none => rw [hd] at h; cases h
-      | some out =>
-        rw [hd] at h
-        simp only [Option.bind_some] at h
-        split at h
-        · cases h
-          have := hb algo stored d.sourceSize _ hd
-          omega
-        · cases h
+    | none => cases hraw; omega
+    | some ca =>
+      obtain ⟨algo, lvl⟩ := ca
+      dsimp only at hraw
+      have := hb algo stored d.sourceSize _ hraw
+      omega
 
 end Bita.Proofs
